@@ -112,6 +112,9 @@ func cornerAssigns(api *probe.API) []spec.Assign {
 			}
 		}
 	}
+	lit, nl := literalAssigns(api, 60000)
+	out = append(out, lit...)
+	cornerNote[v.ID] += " ; literal-guided objects: " + strconv.Itoa(len(lit)) + " from " + strconv.Itoa(nl) + " integer literals of the tree"
 	cornerCache[v.ID] = out
 	return out
 }
